@@ -929,6 +929,11 @@ def mon_C16(case):
             continue
         if len(l.pos) > 1:
             last = (l.pos[1], l.named.get("sz"))
+    # "any subsequent operation sequence applied to both produces identical results": the eviction callback is part
+    # of what a RawLRU does, so after a clone / swap the callback oracle of C15 applies to whichever copy is driven
+    if case.comp == "rawlru" and any(l.op in ("clone", "clonefrom", "swap") for l in case.lines):
+        for f in mon_C15(case):
+            fails.append(Fail(f.case, f.idx, "on a cache that was cloned: " + f.msg))
     return fails
 
 
